@@ -27,8 +27,35 @@ static int spec(bool dec, bool u, int l, unsigned long long v) {
   if (u || !dec) return ULL;
   return NONE;
 }
-int main() {
+#include <cmath>
+#include <cstring>
+// floating literals: the real engine against strtod / strtold, within 4 ulp (the property's "few units in the last place")
+static int floats(chaiscript::ChaiScript &chai) {
+  const char *lits[] = {"0.5", "1.25", "3.14159265358979", "0.000000000931", "2.718281828459045", "123456.789012345678", "0.1", "0.30000000000000004",
+                        "1e10", "1.5e-7", "6.02214076e23", "9.999999999", "0.12345678901", "1.0000000001", "12345678901234567890.0", "1.7976931348623157e308",
+                        "2.5f", "0.1f", "3.14159265358979f", "1e-3f", "0.1l", "3.14159265358979323846l"};
+  long n = 0, bad = 0;
+  for (const char *l : lits) {
+    ++n;
+    const std::string text = l;
+    std::string why;
+    try {
+      chaiscript::Boxed_Value bv = chai.eval(text);
+      const char last = text.back();
+      long double got, want, ulp;
+      if (last == 'f') { float g = chai.boxed_cast<float>(bv); float w = std::strtof(text.substr(0, text.size() - 1).c_str(), nullptr); got = g; want = w; ulp = std::fabs(std::nextafter(w, INFINITY) - w); }
+      else if (last == 'l') { long double g = chai.boxed_cast<long double>(bv); long double w = std::strtold(text.substr(0, text.size() - 1).c_str(), nullptr); got = g; want = w; ulp = std::fabs(std::nextafter(w, (long double)INFINITY) - w); }
+      else { double g = chai.boxed_cast<double>(bv); double w = std::strtod(text.c_str(), nullptr); got = g; want = w; ulp = std::fabs(std::nextafter(w, INFINITY) - w); }
+      if (!(std::fabs(got - want) <= 4 * ulp)) why = "value is more than 4 ulp away from the correctly rounded value";
+    } catch (const std::exception &e) { why = std::string("rejected: ") + e.what(); }
+    if (!why.empty()) { ++bad; if (bad <= 8) std::printf("{\"literal\":\"%s\",\"violated\":\"%s\"}\n", text.c_str(), why.c_str()); }
+  }
+  std::fprintf(stderr, "probe_literals floats: %ld literals, %ld failing\n", n, bad);
+  return bad ? 1 : 0;
+}
+int main(int argc, char **argv) {
   chaiscript::ChaiScript chai;
+  if (argc > 1 && std::string(argv[1]) == "floats") return floats(chai);
   const std::vector<unsigned long long> vals = {0, 1, 7, INT_MAX - 1ull, INT_MAX, INT_MAX + 1ull, UINT_MAX - 1ull, UINT_MAX, UINT_MAX + 1ull, (unsigned long long)LONG_MAX - 1, (unsigned long long)LONG_MAX, (unsigned long long)LONG_MAX + 1, ULLONG_MAX - 1, ULLONG_MAX};
   const char *sufs[] = {"", "u", "U", "l", "L", "ul", "UL", "lu", "ll", "LL", "ull", "ULL", "llu"};
   const int bases[] = {10, 8, 16, 2};
